@@ -55,7 +55,7 @@ CHECKS = {
    "DESIGN.md 4/C06"),
  "C10": ("exploration",
    "runtime monitors: (a) porcupine linearizability check of recorded invoke/return histories against the Appendix-B machine (non-deterministic after the terminal transition), partitioned per bar; (b) the Go race detector over scenario workers built with -race (harness clock, history and hook callback off)",
-   "(a) ~600 (quick) / ~12000 (thorough) histories of 2-6 clients x 4-12 operations on 1-3 shared bars with render cycles, completion and bar-goroutine exit landing between and inside operations; every per-bar history must have a sequential explanation by the documented rules, the final quiescent reads included. (b) ~400 (quick) / ~10000 (thorough) scenarios under -race: getters, Wait, SetPriority, traverse and proxies hammered on bars that are rendering, shutting down and already shut down while later frames are drawn, concurrent Add/Write, n>q, and the render-error path; any report with a library frame is a violation (deduplicated by the pair of first library functions).",
+   "(a) ~600 (quick) / ~12000 (thorough) histories of 2-6 clients x 4-30 operations on 1-3 shared bars with render cycles, completion and bar-goroutine exit landing between and inside operations, the bar's goroutine held back after each operation it serves in two fifths of them (hook bar.op) so that client calls queue up at its channel; every per-bar history must have a sequential explanation by the documented rules, the final quiescent reads included. (b) ~520 (quick) / ~13000 (thorough) scenarios under -race: getters, Wait, SetPriority, traverse and proxies hammered on bars that are rendering, shutting down and already shut down while later frames are drawn, concurrent Add/Write, n>q, the render-error path, queue-after hand-overs, pop mode with late successors, several goroutines parked in Progress.Wait and the terminal path on a pty; any report with a library frame is a violation (deduplicated by the pair of first library functions).",
    "post-terminal updates are restricted to non-decreasing ones; porcupine timeout (60 s per bar) = inconclusive; race reports without a library frame are harness bugs and fail the check as such",
    "DESIGN.md 4/C10, Appendix B"),
  "C11": ("exploration",
